@@ -1141,7 +1141,7 @@ pub fn run(args: &Args) -> i32 {
             .floor("c07:partition_rotations_observed", 200)
     } else {
         spec()
-            .floor("c07:epochs_advanced", 200_000)
+            .floor("c07:epochs_advanced", 200_000) // full run: 4 x 27 000 + 12 x 12 000 = 252 000
             .floor("max:c07:epochs_in_one_history", 26_001)
             .floor("c07:ring_wraps_observed", 1)
             .floor("c07:intents_created", 5_000)
@@ -1158,7 +1158,7 @@ pub fn run(args: &Args) -> i32 {
             .floor("c07:rejected_at_start_minus_1", 400)
             .floor("c07:commits_at_end_minus_1", 200)
             .floor("c07:reuse_after_failed_parent_committed_success", 200)
-            .floor("c07:partition_rotations_observed", 3_000)
+            .floor("c07:partition_rotations_observed", 2_000)
             .floor("max:c07:epochs_between_commit_and_rejected_resubmission", 8_000)
     };
     let mut report = Report::new(args, spec);
